@@ -627,6 +627,20 @@ func (in *refInst) checkRange(v cty.Value, report func(site, shape, detail strin
 	}
 	if !v.IsKnown() {
 		r := v.Range()
+		// the range's own membership test: it may answer "unknown" for an admitted
+		// value but never False, and a known probe the stated constraints exclude
+		// (all of them are wholly known) is reported as excluded
+		for _, p := range in.probes() {
+			want := m.admitsProbe(p)
+			inc := r.Includes(p)
+			incFalse := inc.IsKnown() && !inc.IsNull() && inc.False()
+			if want && incFalse {
+				report("includes-excludes-admitted", shape, fmt.Sprintf("after %s: Range().Includes(%s) = False on %s although the stated constraints admit it", opName, goStr(p), goStr(v)))
+			}
+			if !want && !incFalse {
+				report("includes-widened", shape, fmt.Sprintf("after %s: Range().Includes(%s) = %s on %s although the stated constraints exclude it", opName, goStr(p), goStr(inc), goStr(v)))
+			}
+		}
 		// nullness
 		if r.CouldBeNull() == m.notNull || r.DefinitelyNotNull() != m.notNull {
 			report("range-nullness", shape, fmt.Sprintf("after %s: CouldBeNull=%v DefinitelyNotNull=%v, stated notnull=%v", opName, r.CouldBeNull(), r.DefinitelyNotNull(), m.notNull))
